@@ -56,3 +56,11 @@ _add('C12',
      'timetable prescribes (date, server count, slot size; zero-server shifts start nothing; interrupted customers restart first). '
      'K1: observed runs + object-level differential of Schedule/Slotted against the extracted model.',
      technique='Coq theorems about a hand-written model of the schedule generator + acceptor; differential and conformance against the real objects')
+_add('C18',
+     'Deadlock.v: deadlocked_iff_D (Coq): the pruning computation returns a non-empty set iff there is a non-empty set of servers all holding '
+     'customers blocked towards servers of the set (the structural definition in the property). T1 C18_sound: on every accepted '
+     'simulate_until_deadlock run the loop never continues past a state with a genuine deadlock of the TRUE wait-for relation (recomputed '
+     'from raw attributes), stops only in one, and each time to deadlock = deadlock time - first visit >= 0. K1: observed runs on restricted '
+     'networks; the detector digraph and the networkx knot search are tied to the model at every frame and on random digraphs.',
+     'Mechanism clauses (digraph = wait-for relation; knot search = structural definition) are correspondence obligations: if only they fail the '
+     'check reports no-failing-input-found. networkx itself is trusted library code tied by differential testing.')
